@@ -408,7 +408,14 @@ class RebinValues(FunctionContract):
         for n0, m in [(5, 49), (2, 107), (3, 7)]:
             for s in (True, False):
                 yield dict(x=np.arange(n0, dtype=float) * 10, d=(n0 * m,), sample=s)
-        for (shp, d, s) in self.cases("quick"):
+        cs = list(self.cases("quick"))
+        # axes whose factors differ in kind (expand before shrink, ...) first, with integer data: truncation after each axis makes the axis order visible
+        mixed = [c for c in cs if len(c[0]) > 1 and len({(dd > ss) - (dd < ss) for ss, dd in zip(c[0], c[1])}) > 1]
+        for (shp, d, s) in mixed:
+            for _ in range(2):
+                yield dict(x=np.array([rng.randint(-9, 9) for _ in range(int(np.prod(shp)))], dtype=np.int32).reshape(shp), d=d, sample=s)
+        rng.shuffle(cs)
+        for (shp, d, s) in cs:
             yield dict(x=np.array([rng.uniform(-3, 3) for _ in range(int(np.prod(shp)))]).reshape(shp), d=d, sample=s)
             yield dict(x=np.array([rng.randint(-9, 9) for _ in range(int(np.prod(shp)))], dtype=np.int32).reshape(shp), d=d, sample=s)
             yield dict(x=np.array([rng.uniform(-3, 3) for _ in range(int(np.prod(shp)))], dtype=np.float32).reshape(shp), d=d, sample=s)
